@@ -7,16 +7,17 @@ import "strings"
 // Filled from observation; the table never decides a verdict.
 
 func init() {
-	anyOf := func(names ...string) func([]string, func(...string) bool) bool {
-		return func(args []string, has func(...string) bool) bool { return has(names...) }
+	anyOf := func(names ...string) func(string, []string, func(...string) bool) bool {
+		return func(mode string, args []string, has func(...string) bool) bool { return has(names...) }
 	}
 	// (unuse-package <package>) rebuilds cl-user's tables from an incomplete use list: every later error is a nil dereference
 	isolateRules["common-lisp:unuse-package"] = anyOf("pkg")
 	// reading a line from a closed stream never returns
 	isolateRules["common-lisp:read-line"] = anyOf("scl")
 	// (do () (t)): an end test that is a symbol or a constant is dropped, the loop never ends
-	doRule := func(args []string, has func(...string) bool) bool {
-		return 2 <= len(args) && (args[1] == "(1 2 3)" || args[1] == "(1 . 2)" || args[1] == "lamx")
+	doRule := func(mode string, args []string, has func(...string) bool) bool {
+		return mode == "l" && 2 <= len(args) && (args[0] == "el" || args[0] == "lamx") &&
+			(args[1] == "(1 2 3)" || args[1] == "(1 . 2)" || args[1] == "lamx")
 	}
 	isolateRules["common-lisp:do"] = doRule
 	isolateRules["common-lisp:do*"] = doRule
